@@ -17,7 +17,7 @@ from harness.core import pmap, MachineryError
 from harness import mom_common as M
 from harness import eg_common as E
 
-EG_INV = ["TypeOK", "QsumTotal", "QsumOnStored", "SrcRule", "EarlyStopCertified", "NoOverrun", "BestGapCertified", "BestIsLastMin"]
+EG_INV = ["TypeOK", "QsumTotal", "QsumOnStored", "SrcRule", "EarlyStopCertified", "NoOverrun", "BestGapCertified", "BestIsLastMin", "IndMapped"]
 
 
 def eg_cfg(maxiter, maxrank, maxhs, evalcap=1, evalcaplp=2, trace=False):
@@ -114,6 +114,10 @@ def run(ck):
         ck.sample({"config": good[0]["conf"], "info": good[0]["info"], "trace_head": good[0]["trace"]["events"][:6]})
     if early == 0 or lp_src == 0 or feas == 0:
         raise MachineryError(f"vacuity: early stops {early}, LP iterates {lp_src}, feasible {feas}")
+    from harness import extras2
+    # Apalache: the termination / certification clauses are inductive for ALL max_iter, nu and gap values (EGInd.tla)
+    extras2.apalache(ck, "EGInd", "Init", "IndInv", 0, "unbounded EG stop rule: Init => IndInv")
+    extras2.apalache(ck, "EGInd", "IndInit", "IndInv", 1, "unbounded EG stop rule: IndInv /\\ Next => IndInv'")
     ck.assumptions += ["multipliers come from exp / HiGHS: certificate inequalities are evaluated in float64 (slack 1e-7) against TLC's exact payoff table; OPT by a float LP over that table",
                        "early-stop clause checked as best_gap_ < nu + 1e-8 (the code selects the last iterate within 1e-8 of the minimum gap)",
                        "gaps enter TLC as dense ranks (order-isomorphic), Q_EG as exact integer numerators over t+1"]
